@@ -951,6 +951,37 @@ def evaluate(root: Node, env: dict, mode="mp", uf_impl=None):
 # symbolic differentiation
 
 
+def defined(root: Node) -> Node:
+    """Definedness (finiteness) condition of a real expression: every divisor is non-zero, every even root has a
+    non-negative radicand, every logarithm a positive argument.  This is what torch.isfinite decides under assumption A1
+    (no overflow); uninterpreted applications and variables are finite."""
+    memo = {}
+
+    def go(n):
+        if n.id in memo:
+            return memo[n.id]
+        if n.op == "ite":
+            c, a, b = n.args
+            r = and_(go(c), ite(c, go(a), go(b))) if (go(a) is not TRUE or go(b) is not TRUE) else go(c)
+        else:
+            conds = [go(a) for a in n.args]
+            if n.op == "pow":
+                e = n.val
+                base = n.args[0]
+                if e.denominator % 2 == 0:
+                    conds.append(gt(base, const(0)) if e < 0 else ge(base, const(0)))
+                elif e < 0:
+                    conds.append(ne(base, const(0)))
+            elif n.op == "log":
+                conds.append(gt(n.args[0], const(0)))
+            conds = [c for c in conds if c is not TRUE]
+            r = and_(*conds) if conds else TRUE
+        memo[n.id] = r
+        return r
+
+    return go(root)
+
+
 def diff(root: Node, x: Node, uf_rule=None) -> Node:
     """d root / d x (x a var node).  uf_rule(node, argindex) -> Node gives partials of uf applications."""
     memo = {}
